@@ -50,16 +50,18 @@ func (w *World) emptyBlockLen() int {
 	return len(raw)
 }
 
-var emptyBlockSize int
+var emptyBlockSize = map[bool]int{}
 
-// emptyLen measures (once) the wire size of an empty block of the harness network.
-func emptyLen(t *testing.T) int {
-	if emptyBlockSize == 0 {
-		probe := NewWorld(t, defaultParams("probe"))
-		emptyBlockSize = probe.emptyBlockLen()
+// emptyLen measures (once per header format) the wire size of an empty block of the harness network.
+func emptyLen(t *testing.T, srih bool) int {
+	if emptyBlockSize[srih] == 0 {
+		pp := defaultParams("probe")
+		pp.SRIH = srih
+		probe := NewWorld(t, pp)
+		emptyBlockSize[srih] = probe.emptyBlockLen()
 		probe.Close()
 	}
-	return emptyBlockSize
+	return emptyBlockSize[srih]
 }
 
 // proposeRound does what a primary does with its pool and what a backup / peer does with the result:
@@ -118,7 +120,7 @@ func (w *World) proposeRound(res *vh.Result, tr *vh.Trace, src string, cands []*
 			return
 		}
 		wire = len(raw)
-		d, err := chainkit.DecodeBlock(raw, false)
+		d, err := chainkit.DecodeBlock(raw, w.P.SRIH)
 		if err != nil {
 			errS = "decode: " + err.Error()
 			return
@@ -130,7 +132,7 @@ func (w *World) proposeRound(res *vh.Result, tr *vh.Trace, src string, cands []*
 		accepted = true
 		w.raws = append(w.raws, raw)
 		// the proposer stores its own block too (a second, independent parse of the same bytes)
-		d2, _ := chainkit.DecodeBlock(raw, false)
+		d2, _ := chainkit.DecodeBlock(raw, w.P.SRIH)
 		if err = w.bc.AddBlock(d2); err != nil {
 			panic(fmt.Sprintf("replica accepted block %d but the proposer itself rejects it: %v", d2.Index, err))
 		}
@@ -212,7 +214,8 @@ func runPacks(t *testing.T, res *vh.Result, tr *vh.Trace, cases []packCase, r *r
 	for gi, k := range order {
 		p := defaultParams(fmt.Sprintf("P%d", gi))
 		p.Rich = true
-		empty := emptyLen(t)
+		p.SRIH = gi%2 == 1 // every other packing world carries state roots in its headers
+		empty := emptyLen(t, p.SRIH)
 		p.MaxTx = uint16(k.maxtx)
 		p.MaxBlkSize = uint32(empty + k.maxsize*packUnit) // exactly what the model allows
 		p.MaxSysFee = int64(k.maxsys) * packSysUnit
@@ -284,7 +287,8 @@ func runMixes(t *testing.T, res *vh.Result, tr *vh.Trace, r *rand.Rand, rounds i
 	p := seededParams("M0", r)
 	p.MaxTx = uint16(3 + r.Intn(6))
 	p.MaxSysFee = 3 * gas
-	empty := emptyLen(t)
+	p.SRIH = r.Intn(2) == 0
+	empty := emptyLen(t, p.SRIH)
 	p.MaxBlkSize = uint32(empty + 6000 + r.Intn(30000))
 	w := NewWorld(t, p)
 	defer w.Close()
